@@ -170,6 +170,9 @@ func (n *node[T]) clean(prefix string) {
 		if len(child.segment.Value) < len(prefix) {
 			if strings.HasPrefix(prefix, child.segment.Value) {
 				child.clean(prefix[len(child.segment.Value):])
+				if child.size() == 0 && len(child.children) == 0 { // 与 Remove 保持一致，不保留空节点。
+					dels = append(dels, child.segment.Value)
+				}
 			}
 		}
 
